@@ -5,6 +5,23 @@
    what SplitAbs takes apart. *)
 From Avfs Require Import Base PathModel PathSpec PathCleanProofs PathIterProofs MemFS OrefaFS.
 
+(* ---- setOwner keeps the directory bit ----------------------------------------------------------------- *)
+(* clearing bits does not set one *)
+Lemma has_ldiff_false a b bit : has a bit = false -> has (N.ldiff a b) bit = false.
+Proof.
+  unfold has. intros H. apply negb_false_iff, N.eqb_eq in H. apply negb_false_iff, N.eqb_eq.
+  apply N.bits_inj. intros k. rewrite N.land_spec, N.ldiff_spec, N.bits_0.
+  assert (Hk : N.testbit (N.land a bit) k = false) by (rewrite H; apply N.bits_0). rewrite N.land_spec in Hk.
+  destruct (N.testbit a k), (N.testbit b k), (N.testbit bit k); cbn in *; congruence.
+Qed.
+
+Lemma o_chown_meta_dir m uid gid : has (m_mode (o_chown_meta m uid gid)) MODE_DIR = has (m_mode m) MODE_DIR.
+Proof.
+  unfold o_chown_meta, with_owner. cbn [m_mode]. destruct (has (m_mode m) MODE_DIR) eqn:Hd; [exact Hd|].
+  cbn [m_mode]. destruct (has (m_mode m) 8); repeat apply has_ldiff_false; exact Hd.
+Qed.
+
+
 
 (* ---- association lists with string keys ---------------------------------- *)
 Section AssocStr.
